@@ -631,8 +631,8 @@ pub fn run(tier: &str, parity_odd: bool, shard: usize, nshards: usize, rep: &mut
         scripts.push(vec![*s]);
     }
     if tier == "thorough" {
-        // all pairs of deviations among the first 6 calls of each method, and all triples among the first 2
-        let s3 = singles(2);
+        // all pairs of deviations among the first 8 calls of each method, and all triples among the first 3
+        let s3 = singles(3);
         for i in 0..s3.len() {
             for j in i + 1..s3.len() {
                 for k in j + 1..s3.len() {
@@ -643,7 +643,7 @@ pub fn run(tier: &str, parity_odd: bool, shard: usize, nshards: usize, rep: &mut
                 }
             }
         }
-        let s2 = singles(6);
+        let s2 = singles(8);
         for i in 0..s2.len() {
             for j in i + 1..s2.len() {
                 if (s2[i].0, s2[i].1) != (s2[j].0, s2[j].1) {
